@@ -165,7 +165,7 @@ Section MemoryRun.
     unfold accept_step. rewrite no_update_function.
     intros [cont s1] tr H. apply bind_ok_inv in H as ([[f0 g] t2] & tr1 & trA & H1 & H & ->).
     destruct (lift_events _ _ _ H1) as (t' & ->).
-    rewrite bind_ret_l in H.
+    rewrite bind_ret_l in H. cbn beta iota in H. cbn [andb] in H. change (update_mem_f K c false) with (update_mem K c) in H.
     destruct (is_f0_target_reached _ _).
     { unfold ret in H. inversion H; subst. cbn. split; [left; auto|]. rewrite app_nil_r. apply cb_pairs_lift. }
     destruct (is_f0_min_change_reached _ _ _).
